@@ -47,7 +47,7 @@ RULE = ('suite_contents: hierarchies = root suite (exactly.suite or main.suite; 
         '2-5 cases of 1-8 ops (env set/unset/-of, cd, timeout, def, file, dir, shell-made file, stdin; observers: '
         'pwd+env+sandbox listing, symbol use, exists, sleep) over the four instruction phases, conf settings, five '
         'kinds of act, endings ok / hard error / validation error / syntax error; all orders for <= 3 cases else up to '
-        '6 (thorough 24), in 25 % split over a sub-suite; non-trivial = in some order an observing case runs after a '
+        '6 (thorough 12), in 25 % split over a sub-suite; non-trivial = in some order an observing case runs after a '
         'changing case.  distinct = distinct generated value')
 ASSUMPTIONS = [
     'the suite run is observed through the progress reporter: `case  NAME: (T s) IDENTIFIER` lines (format taken from '
@@ -542,9 +542,9 @@ def enum_unit_matrix(tier):
             n = len(vals)
             pairs = [(a, (a + 1) % n) for a in range(n)] if tier == 'quick' else \
                 [(a, b) for a in range(n) for b in range(n) if a != b]
-            for phase in (u['phases'] if tier != 'quick' else [p for p in u['phases'] if p != 'setup'][-2:]):
-                if phase == 'setup':
-                    continue
+            later = [p for p in u['phases'] if p != 'setup']
+            # quick: one phase per (unit, symbol) - the suite's [cleanup] (after the case's) or an earlier phase in turn
+            for phase in (later if tier != 'quick' else [later[-1 - (len(role) + len(u['id'])) % min(2, len(later))]]):
                 for a, b in pairs:
                     is_act = u['kind'] == 'ACT'
                     k = 'A' if is_act else '0'
@@ -776,12 +776,12 @@ SUBS = [
     Sub('manual_agrees', check_manual, enumerate=lambda tier: _MANUAL, exhaustive=True,
         shards={'quick': 1, 'thorough': 1}),
     Sub('suite_contents', check_suite_contents, strategy=lambda tier: gen.suite_with_contents(),
-        budget={'quick': 600, 'thorough': 15000}, render=sc_render),
+        budget={'quick': 500, 'thorough': 15000}, render=sc_render),
     Sub('symbol_units_matrix', check_suite_symbols, enumerate=enum_unit_matrix, exhaustive=True, render=ss_render),
     Sub('suite_symbols', check_suite_symbols, strategy=lambda tier: units.suites_with_symbol_consumers(tier),
-        budget={'quick': 400, 'thorough': 10000}, render=ss_render),
+        budget={'quick': 300, 'thorough': 10000}, render=ss_render),
     Sub('histories', check_histories, strategy=lambda tier: hist.histories(tier),
-        budget={'quick': 300, 'thorough': 8000}, render=hi_render),
+        budget={'quick': 250, 'thorough': 5000}, render=hi_render),
     Sub('subprocess_differential', check_subprocess, strategy=lambda tier: gen.suite_with_contents(),
-        budget={'quick': 32, 'thorough': 600}, render=sc_render),
+        budget={'quick': 16, 'thorough': 600}, render=sc_render),
 ]
